@@ -132,9 +132,12 @@ async def drive(peer, sess: M.Session, ops, *, world=None, check_tree=True, sett
                             sess.dc = True
                         if v in ("STOR", "APPE"):
                             stored = payload_of(op) if payload_of else b"payload-" + arg.encode("utf-8", "replace")
-                            how = await peer.send_all(stored, opts.get("chunks"))
+                            how = await peer.send_all(stored, opts.get("chunks"), opts.get("pauses"))
                             peer.data_close()
                         else:
+                            if opts.get("read_delay"):
+                                # a reader that is slow to start: nothing may give up meanwhile
+                                await asyncio.sleep(opts["read_delay"])
                             data, how = await peer.recv_all(timeout=30.0)
                             st.data = data
                             peer.data_close()
